@@ -9,6 +9,9 @@ import Infretis.Lemmas.PermEmbed
 import Infretis.Lemmas.PermMain
 import Infretis.Lemmas.PermFull
 import Infretis.Lemmas.PermMC
+import Infretis.Lemmas.PermCacheInv
+import Infretis.Lemmas.PermRandomInv
+import Infretis.Lemmas.PermEval
 import Mathlib.Tactic.IntervalCases
 import Mathlib.Tactic.NormNum
 /-!
@@ -338,5 +341,201 @@ def free13 : Mat := (List.replicate 13 2 : Row) :: List.replicate 12 ((3 : Rat) 
 example : (sortedOut { offset := 0, m := 13, sortIdx := List.range 13, sorted := free13, equal := false }).mc = [13]
     ∧ branchOf free13 = .random ∧ branchOf (free13.take 12) = .glynn ∧ branchOf (free13.take 1) = .single := by
   decide +kernel
+
+/-! ## 9. The `prob` property and its cache `_last_prob` (model: `Infretis.PermCache`)
+
+The sampler state machine over the operations that touch `state`, `_locks` or `_last_prob`:
+the getter, `lock`, `unlock`, `pick`/`pick_traj_ens` (read, `swap`, `lock`), `add_traj`, `sort_trajstate`,
+`print_state` — and the bare `swap`, which the sampler never performs on its own. -/
+
+open Infretis.PermCache in
+/-- **Cache coherence for every operation history.**  Start from any coherent state (e.g. an empty cache) and run
+    ANY list of the sampler's operations that completes: every probability matrix that was handed out — by the
+    getter, to `pick`/`pick_traj_ens`, inside `add_traj` and `sort_trajstate`, to `print_state` — is
+    `inf_retis(abs(state), _locks)` of the state and locks AT THE MOMENT OF THE USE (never an error value), and
+    the final cache is again empty or current. -/
+theorem cache_coherent_every_history (c : C) (hc : Coherent c) (ops : List Op)
+    (hp : ∀ op ∈ ops, isPublic op = true) (c' : C) (us : List Use) (h : run c ops = .ok (c', us)) :
+    (∀ u ∈ us, u.val = compute u.at_ ∧ ∀ e, u.val ≠ Res.error e) ∧ Coherent c' :=
+  let r := run_spec ops c hc hp c' us h
+  ⟨r.2, r.1⟩
+
+open Infretis.PermCache in
+/-- a fresh object (`_last_prob = None`) is coherent -/
+theorem cache_fresh_coherent (n : Nat) (ti : Int) (W : Mat) (locks : List Bool) (trajs : List (Option Nat)) :
+    Coherent (mkC n ti W locks trajs) := coherent_of_none _ rfl
+
+/-- slots: the [0-] path, one plus path, ghost -/
+def wCache : Mat := [[1,0,0],[0,1,0],[0,0,0]]
+
+open Infretis.PermCache in
+/-- a history through every public operation: read, pick (swap+lock), print_state, add_traj of the finished job,
+    sort_trajstate, lock, read, unlock, print_state — it completes, 7 matrices are handed out, and the cache is
+    empty at the end (print_state restores None) -/
+example : (match run (mkC 3 (-1) wCache [false, false, true] [some 1, some 2, none])
+      [.read, .swapLock 1 1, .printState, .addTraj 0 3 [1, 0], .sort, .lock 0, .read, .unlock 0, .printState] with
+    | .ok (c', us) => us.length == 7 && c'.cache.isNone
+    | .error _ => false) = true := by decide +kernel
+
+open Infretis.PermCache in
+/-- **What a use of the cache is worth**: on a state of the reachable family (up to 12 idle ensembles) the
+    matrix handed out is the embedded permanent-ratio matrix of the current `(|state|, locks)`. -/
+theorem cache_use_eq_spec (u : Use) (hu : u.val = compute u.at_) (cnts : List Nat)
+    (hF : FullReach (absMat u.at_.W) u.at_.locks cnts) (hne : idle (absMat u.at_.W) u.at_.locks ≠ [])
+    (hP : permC (idle (absMat u.at_.W) u.at_.locks) ≠ 0) (h12 : (idle (absMat u.at_.W) u.at_.locks).length ≤ 12) :
+    u.val = .ok (probMatrix (absMat u.at_.W) u.at_.locks) := by
+  rw [hu]
+  exact infRetis_eq_spec_full _ _ cnts hF hne hP h12
+
+open Infretis.PermCache in
+/-- **A bare `swap` is not an invalidation point**: `swap` leaves `_last_prob` alone, so read – swap – read hands
+    out the matrix of the state BEFORE the swap.  (In the code every `swap` is followed by `lock` or by
+    `_last_prob = None`: `pick`, `pick_traj_ens`, `sort_trajstate`; the theorem above covers those.) -/
+theorem bare_swap_stale_counterexample :
+    ¬ (∀ c' us, run (mkC 3 (-1) wCache [false, false, true] [some 1, some 2, none])
+        [.read, .rawSwap 0 1, .read] = .ok (c', us) → ∀ u ∈ us, u.val = compute u.at_) := by
+  intro h
+  have key : (match run (mkC 3 (-1) wCache [false, false, true] [some 1, some 2, none])
+        [.read, .rawSwap 0 1, .read] with
+      | .ok (_, us) => us.all (fun u => decide (u.val = compute u.at_))
+      | .error _ => true) = false := by decide +kernel
+  cases hr : run (mkC 3 (-1) wCache [false, false, true] [some 1, some 2, none])
+      [.read, .rawSwap 0 1, .read] with
+  | error e => rw [hr] at key; cases key
+  | ok p =>
+    obtain ⟨c', us⟩ := p
+    rw [hr] at key
+    have hall : us.all (fun u => decide (u.val = compute u.at_)) = true := by
+      rw [List.all_eq_true]
+      intro u hu
+      exact decide_eq_true (h c' us hr u hu)
+    simp only [hall] at key
+    cases key
+
+/-! ## 10. The Monte-Carlo routine `random_prob` (model: `Infretis.PermRandom`): what holds SURELY
+
+`random_prob` is outside exactness by design (blocks > 12 that are not row-constant).  With every draw an explicit
+argument — per iteration the direction, `start` (drawn twice for odd sizes) and the `len(arr)//2` uniform
+numbers — the following hold for EVERY draw sequence, not only in expectation. -/
+
+open Infretis.PermRandom in
+/-- **Zero where the weight is zero, surely.**  If the block has a non-zero diagonal (the identity assignment the
+    routine starts from has non-zero weight — true for every block `find_blocks` cuts out of a sorted staircase)
+    then for every number of samples and every outcome of the draws (`start ∈ {0,1}`, uniform numbers `≥ 0`) the
+    returned matrix is exactly zero wherever the weight is zero: no proposal into a zero-weight state is ever
+    accepted. -/
+theorem randomProb_zero_where_weight_zero (arr : Mat) (draws : List Draw)
+    (hdiag : ∀ c, c < arr.length → entry arr c c ≠ 0) (hd : ∀ d ∈ draws, DrawOk d)
+    (r c : Nat) (hr : r < arr.length) (hc : c < arr.length) (hz : entry arr r c = 0) :
+    entry (randomProb arr draws) r c = 0 :=
+  randomProb_zero arr draws hdiag hd r c hr hc hz
+
+open Infretis.PermRandom in
+/-- **Rows sum to exactly one** for every block, every number of samples and every draw sequence (each visited
+    state is a permutation; the normalisation is by `n + 1` = number of states counted incl. the initial one). -/
+theorem randomProb_rows_sum_one (arr : Mat) (draws : List Draw) (r : Nat) (hr : r < arr.length) :
+    ((randomProb arr draws).getD r []).sum = 1 :=
+  randomProb_row_sum arr draws r hr
+
+open Infretis.PermRandom in
+/-- **Columns sum to exactly one** likewise: the estimate is doubly stochastic surely, so the two `allclose`
+    assertions of `inf_retis` cannot fire because of the Monte-Carlo block. -/
+theorem randomProb_cols_sum_one (arr : Mat) (draws : List Draw) (c : Nat) (hc : c < arr.length) :
+    ((List.range arr.length).map (fun r => entry (randomProb arr draws) r c)).sum = 1 :=
+  randomProb_col_sum arr draws c hc
+
+/-- a 3×3 block (odd size: `start` is drawn) with a zero above the diagonal -/
+def wRand : Mat := [[2, 1, 0], [1, 2, 4], [1, 1, 8]]
+
+open Infretis.PermRandom in
+/-- three iterations: the wrap-around pair (column 0 and the last column, left, start 0) is rejected because it
+    would put path 0 on its zero weight; columns 0,1 exchange (right, start 0, 1/8 < 1/4); the pair 1,2 (right,
+    start 1) is rejected for the same reason.  Draw requests: three `choice`s and one uniform number for size 3,
+    one `choice` and seven uniform numbers for size 14. -/
+example : (∀ c, c < wRand.length → entry wRand c c ≠ 0)
+    ∧ (∀ d ∈ [Draw.mk true 1 0 [0], Draw.mk false 1 0 [1/8], Draw.mk false 0 1 [0]], DrawOk d)
+    ∧ entry wRand 0 2 = 0
+    ∧ randomProb wRand [Draw.mk true 1 0 [0], Draw.mk false 1 0 [1/8], Draw.mk false 0 1 [0]]
+        = [[1/2, 1/2, 0], [1/2, 1/2, 0], [0, 0, 1]]
+    ∧ requests 3 = [.c2, .c2, .c2, .rnd 1] ∧ requests 14 = [.c2, .rnd 7] := by
+  refine ⟨by decide +kernel, ?_, by decide +kernel, by decide +kernel, by decide +kernel, by decide +kernel⟩
+  intro d hd
+  simp only [List.mem_cons, List.not_mem_nil, or_false] at hd
+  rcases hd with rfl | rfl | rfl <;> exact ⟨by decide, by intro r hr; simp at hr; subst hr; decide +kernel⟩
+
+/-! ## 11. The boundary of the family assumption: which code paths need the staircase shape
+
+`permanentProb_eq_spec` and `glynn_eq_permC` above assume NOTHING about the shape or the signs of the matrix: the
+permanent path is exact for every square matrix with non-zero permanent and non-zero row maxima.  The fast path
+(`quick_prob`), the block decomposition (`find_blocks`) and therefore `inf_retis` as a whole rest on the staircase
+shape: on a weight vector with a hole (a zero between two non-zero entries — the open C05 finding) they return a
+doubly stochastic matrix that is NOT the permanent-ratio matrix, and no assertion fires. -/
+
+/-- plus block with a hole in the first row -/
+def holeBlock : Mat := [[1, 0, 1], [1, 1, 0], [1, 1, 1]]
+
+/-- **The permanent path does not need the family; the fast path does.**  On the 0/1 block with a hole
+    (permanent 3) `permanent_prob` returns the permanent ratios and `quick_prob` does not. -/
+theorem quick_needs_staircase_counterexample :
+    permC holeBlock ≠ 0 ∧ permanentProb holeBlock = .ok (specMat holeBlock)
+      ∧ quickProb holeBlock ≠ specMat holeBlock := by
+  refine ⟨by decide +kernel, ?_, by decide +kernel⟩
+  exact permanentProb_eq_spec holeBlock (by decide) (by decide) (by decide +kernel) (by decide +kernel)
+
+/-- the full state with that block: [0-] row, the three plus rows, ghost (locked) -/
+def wHole : Mat := [[1,0,0,0,0],[0,1,0,1,0],[0,1,1,0,0],[0,1,1,1,0],[0,0,0,0,0]]
+/-- the same with weights: the hole row (2,·,3), a short row, a free row -/
+def wHoleW : Mat := [[1,0,0,0,0],[0,2,0,3,0],[0,1,1,0,0],[0,1,5,1,0],[0,0,0,0,0]]
+def locksHole : List Bool := [false, false, false, false, true]
+
+/-- all row sums and all column sums of the idle part equal one -/
+def doublyStochastic (P : Mat) (locks : List Bool) : Bool :=
+  let Q := idle P locks
+  allOnes (Q.map List.sum) && allOnes ((List.range Q.length).map (fun j => (colOf Q j).sum))
+
+/-- **`inf_retis` on a hole vector: silently wrong (equal-weights / `quick_prob` branch).**  The permanent ratios
+    are well defined (permanent 3), `inf_retis` raises nothing, its matrix is doubly stochastic — and it is not
+    the permanent-ratio matrix (it says 1/2 where the exact value is 1/3). -/
+theorem infRetis_hole_quick_counterexample :
+    permC (idle wHole locksHole) ≠ 0
+      ∧ ∃ P, infRetis wHole locksHole 1 = .ok P ∧ doublyStochastic P locksHole = true
+        ∧ P ≠ probMatrix wHole locksHole
+        ∧ entry P 1 1 = 1 / 2 ∧ entry (probMatrix wHole locksHole) 1 1 = 1 / 3 := by
+  have hs : argsort [0, -1, 0] = [1, 0, 2] := by
+    simp [argsort, List.mergeSort, List.zipIdx, List.MergeSort.Internal.splitInTwo]
+  have hi := (infRetis_of_argsorts wHole locksHole 1 [0] [0, -1, 0] [0] [1, 0, 2]
+    (by decide +kernel) (by decide +kernel) (by decide +kernel) hs).1
+  refine ⟨by decide +kernel,
+    [[1,0,0,0,0],[0,1/2,0,1/2,0],[0,1/3,2/3,0,0],[0,1/6,1/3,1/2,0],[0,0,0,0,0]], ?_, ?_, ?_, ?_, ?_⟩
+  · rw [hi]; decide +kernel
+  all_goals decide +kernel
+
+/-- **`find_blocks` on a hole vector: a decomposition that is not block-triangular.**  With weights the
+    equal-weight test fails, `find_blocks` counts non-zeros per row and cuts the sorted idle block into
+    (0,1) (1,3) (3,4); `inf_retis` answers with the identity (doubly stochastic, no assertion) although the
+    permanent is 20 and e.g. the hole path is in ensemble index 3 with probability 9/10. -/
+theorem infRetis_hole_blocks_counterexample :
+    permC (idle wHoleW locksHole) ≠ 0
+      ∧ findBlocks (prepare 1 wHoleW locksHole).sorted (prepare 1 wHoleW locksHole).offset
+          = .list [(0, 1, -1), (1, 3, 1), (3, 4, 1)]
+      ∧ ∃ P, infRetis wHoleW locksHole 1 = .ok P ∧ doublyStochastic P locksHole = true
+        ∧ entry P 1 3 = 0 ∧ entry (probMatrix wHoleW locksHole) 1 3 = 9 / 10 := by
+  have hs : argsort [0, -1, 0] = [1, 0, 2] := by
+    simp [argsort, List.mergeSort, List.zipIdx, List.MergeSort.Internal.splitInTwo]
+  have hi := infRetis_of_argsorts wHoleW locksHole 1 [0] [0, -1, 0] [0] [1, 0, 2]
+    (by decide +kernel) (by decide +kernel) (by decide +kernel) hs
+  refine ⟨by decide +kernel, ?_,
+    [[1,0,0,0,0],[0,1,0,0,0],[0,0,1,0,0],[0,0,0,1,0],[0,0,0,0,0]], ?_, ?_, ?_, ?_⟩
+  · rw [hi.2]; decide +kernel
+  · rw [hi.1]; decide +kernel
+  all_goals decide +kernel
+
+/-- … while the permanent path on the WHOLE idle block is exact on both hole states (no family assumption). -/
+theorem permanent_path_exact_on_hole :
+    permanentProb (idle wHole locksHole) = .ok (specMat (idle wHole locksHole))
+      ∧ permanentProb (idle wHoleW locksHole) = .ok (specMat (idle wHoleW locksHole)) := by
+  constructor
+  · exact permanentProb_eq_spec _ (by decide +kernel) (by decide +kernel) (by decide +kernel) (by decide +kernel)
+  · exact permanentProb_eq_spec _ (by decide +kernel) (by decide +kernel) (by decide +kernel) (by decide +kernel)
 
 end Infretis.C02
